@@ -66,8 +66,11 @@ def coarsen(shape, sc):
     return cshape, keep
 
 
-def reference(shape, cycle, sc_pat, lr_pat, clevel, nus, n_iter):
+def reference(shape, cycle, sc_pat, lr_pat, clevel, nus, n_iter, calls=0):
     """Expected events for n_iter fine-grid cycles.
+
+    calls=m > 0: preconditioner mode, the cycles come in calls of m cycles;
+    a ('call',) marker precedes every call (nu_init must be 0 then).
 
     Events: ('smooth', level, shape, kernels, nu, phase),
             ('restrict', level, shape, cshape, code),
@@ -114,6 +117,8 @@ def reference(shape, cycle, sc_pat, lr_pat, clevel, nus, n_iter):
         bottom = max(lev[d] for d in range(3) if d+1 != sc)
         per_it.append((bottom, lr, sc))
         cm0 = 1 if bottom == 0 else gamma[cycle]
+        if calls and it % calls == 0:
+            events.append(('call',))
         if it == 0 and nu_init > 0:
             smooth(0, shape, nu_init, lr, 'initial smoothing', 0, cm0)
         cyc(0, tuple(shape), cycle, sc, lr, bottom, it, cm0)
@@ -146,10 +151,12 @@ def figure(moves, maxlevel):
 
 # ------------------------------------------------------------ recorder
 class Recorder:
-    def __init__(self):
+    def __init__(self, ssl=False):
         self.events = []
         self.cap = 10**7
         self.n = 0
+        self.ssl = ssl
+        self.depth = 0
 
     def install(self):
         from emg3d import core, solver
@@ -189,10 +196,35 @@ class Recorder:
 
         def residual(model, sfield, efield, norm=False):
             if norm:
+                # strictly decreasing, bounded below by 0.5: never converged
+                # (tol=1e-30), never diverged, never stagnated
                 rec.n += 1
-                return 1.0*0.9999**rec.n
+                return 0.5 + 0.5/(1.0 + rec.n)
             return sfield
         solver.residual = residual
+
+        if self.ssl:
+            # Preconditioner mode: mark every top-level multigrid call and
+            # make the (stubbed) preconditioner act as the identity, so that
+            # the scipy solver keeps calling it.  The wrapped function itself
+            # runs unmodified; the recursion goes through this wrapper too
+            # (depth > 0: passive).
+            self.saved[(solver, 'multigrid')] = solver.multigrid
+            orig = solver.multigrid
+
+            def multigrid(model, sfield, efield, var, **kwargs):
+                top = rec.depth == 0
+                if top:
+                    rec.tick()
+                    ev.append(('call',))
+                rec.depth += 1
+                try:
+                    orig(model, sfield, efield, var, **kwargs)
+                finally:
+                    rec.depth -= 1
+                if top:
+                    efield.field[:] = sfield.field
+            solver.multigrid = multigrid
 
     def tick(self):
         if len(self.events) > self.cap:
@@ -206,19 +238,23 @@ class Recorder:
 
 
 _GRIDS = {}
+MODEL_CASES = [(1.0, None, None), (1.0, 2.0, None), (1.0, None, 3.0),
+               (1.0, 2.0, 3.0)]
 
 
-def _problem(shape):
+def _problem(shape, freq=1.0, mcase=0):
     import emg3d
-    if shape not in _GRIDS:
+    key = (shape, freq, mcase)
+    if key not in _GRIDS:
         if len(_GRIDS) > 200:
             _GRIDS.clear()
         grid = emg3d.TensorMesh([np.ones(n) for n in shape], (0, 0, 0))
-        model = emg3d.Model(grid, 1.0)
-        sf = emg3d.Field(grid, frequency=1.0)
+        px, py, pz = MODEL_CASES[mcase]
+        model = emg3d.Model(grid, px, py, pz)
+        sf = emg3d.Field(grid, frequency=freq)
         sf.field[:] = 1.0
-        _GRIDS[shape] = (grid, model, sf)
-    return _GRIDS[shape]
+        _GRIDS[key] = (grid, model, sf)
+    return _GRIDS[key]
 
 
 def _parse_header(log):
@@ -239,7 +275,7 @@ def _parse_figure(log):
     return rows
 
 
-def _compare(spec, got, exp, where):
+def _compare(spec, got, exp, where, cyc=None):
     """got/exp: lists of comparable tuples."""
     if got == exp:
         return
@@ -248,7 +284,7 @@ def _compare(spec, got, exp, where):
     g = got[k] if k < len(got) else None
     e = exp[k] if k < len(exp) else None
     kind = (e or g)[0]
-    cyc = spec['cycle']
+    cyc = cyc or spec['cycle']
     raise Violation(f"sequence_mismatch:{where}:{kind}:cycle={cyc}",
                     f"event {k}: got {g}, expected {e} (lengths "
                     f"{len(got)}/{len(exp)}); spec {spec}")
@@ -257,6 +293,8 @@ def _compare(spec, got, exp, where):
 def _invariants(spec, events):
     """Direct statements of the property on the recorded events."""
     for e in events:
+        if e[0] == 'call':
+            continue
         shapes = [e[1]] if e[0] == 'smooth' else [e[1], e[2]]
         for shp in shapes:
             if min(shp) < 2:
@@ -274,67 +312,183 @@ def _invariants(spec, events):
                                     f"{e}; spec {spec}")
 
 
+def _canon(events):
+    """Sort the kernel calls inside one smoothing step (consecutive smooth
+    events on the same grid with the same number of sweeps): the documentation
+    says which directions are relaxed, not in which order."""
+    out, run = [], []
+    for e in events:
+        if e[0] == 'smooth' and (not run or (run[-1][1], run[-1][3]) ==
+                                 (e[1], e[3])):
+            run.append(e)
+            continue
+        out.extend(sorted(run))
+        run = [e] if e[0] == 'smooth' else []
+        if e[0] != 'smooth':
+            out.append(e)
+    out.extend(sorted(run))
+    return out
+
+
+# documented defaults of emg3d.solve
+DEFAULTS = {'sslsolver': True, 'semicoarsening': True, 'linerelaxation': True,
+            'cycle': 'F', 'clevel': -1, 'nu_init': 0, 'nu_pre': 2,
+            'nu_coarse': 1, 'nu_post': 2}
+
+
+def solver_args(spec):
+    """(kwargs passed to emg3d.solve, effective documented settings)."""
+    nus = list(spec['nus'])
+    args = {'sslsolver': spec.get('ssl', False),
+            'semicoarsening': spec['sc'], 'linerelaxation': spec['lr'],
+            'cycle': spec['cycle'], 'clevel': spec['clevel'],
+            'nu_init': nus[0], 'nu_pre': nus[1], 'nu_coarse': nus[2],
+            'nu_post': nus[3]}
+    for k in spec.get('omit', []):
+        args.pop(k)
+    eff = dict(DEFAULTS)
+    eff.update(args)
+    if spec.get('plain', False):
+        args['plain'] = True
+        # "shortcut for sslsolver=False, semicoarsening=False,
+        # linerelaxation=False; the three parameters remain unchanged if they
+        # are set to anything else than True"
+        for k in ('sslsolver', 'semicoarsening', 'linerelaxation'):
+            if eff[k] is True:
+                eff[k] = False
+    return args, eff
+
+
+def _header_checks(spec, log, shape, clevel):
+    cg, cl = _parse_header(log)
+    lev = [halvings(n) for n in shape]
+    if clevel >= 0:
+        lev = [min(v, clevel) for v in lev]
+    eg = tuple(n//2**v for n, v in zip(shape, lev))
+    if cg != eg or cl != tuple(lev):
+        raise Violation("header_coarsest",
+                        f"header says {cg} / {cl}, expected {eg} / "
+                        f"{tuple(lev)}; spec {spec}")
+    m = re.search(r"Coarsest grid\s*:.*=>\s*([\d,]+) cells", log)
+    if m and int(m.group(1).replace(',', '')) != int(np.prod(eg)):
+        raise Violation("header_coarsest",
+                        f"header says {m.group(1)} cells on the coarsest "
+                        f"grid, expected {int(np.prod(eg))}; spec {spec}")
+    return eg
+
+
+def _parse_cycle_lines(log):
+    cyc = []
+    for ln in log.split('\n'):
+        m = CYCLINE.search(ln)
+        if m:
+            cyc.append((int(m.group(1)), m.group(2), int(m.group(3)),
+                        int(m.group(4))))
+    return cyc
+
+
+def _parse_gs_lines(log):
+    """(level, shape, phase, it, cycmax) of every verb=5 smoothing line."""
+    got = []
+    for ln in log.split('\n'):
+        m = LOGLINE.match(ln)
+        if m and m.group(7) != 'initial error':
+            got.append((int(m.group(2)),
+                        (int(m.group(4)), int(m.group(5)), int(m.group(6))),
+                        m.group(7), int(m.group(1)), int(m.group(3))))
+    return got
+
+
 def case_skeleton(spec, rec):
     import emg3d
     shape = tuple(spec['shape'])
-    grid, model, sf = _problem(shape)
-    sc_pat = pattern(spec['sc'], [1, 2, 3])
-    lr_pat = pattern(spec['lr'], [4, 5, 6])
-    nus = tuple(spec['nus'])
-    n_iter = spec['maxit']
-    exp, per_it, n0 = reference(shape, spec['cycle'], sc_pat, lr_pat,
-                               spec['clevel'], nus, n_iter)
+    freq = spec.get('freq', 1.0)
+    mcase = spec.get('case', 0)
+    grid, model, sf = _problem(shape, freq, mcase)
+    args, eff = solver_args(spec)
+    ssl = eff['sslsolver']
+    sc_pat = pattern(eff['semicoarsening'], [1, 2, 3])
+    lr_pat = pattern(eff['linerelaxation'], [4, 5, 6])
+    nus = (eff['nu_init'], eff['nu_pre'], eff['nu_coarse'], eff['nu_post'])
+    cycle, clevel = eff['cycle'], eff['clevel']
+    maxit = spec['maxit']
+    mc = max(len(sc_pat), len(lr_pat))
+    if ssl and nus[0] != 0:
+        raise HarnessError("preconditioner mode needs nu_init=0 (initial "
+                           "smoothing per preconditioner call is not "
+                           "documented)")
     verb = spec.get('verb', -1)
-    r = Recorder()
-    r.cap = 20*len(exp) + 1000
+    use_ef = spec.get('efield', False)
+    if use_ef:
+        args['efield'] = emg3d.Field(grid, dtype=sf.field.dtype,
+                                     frequency=freq)
+    r = Recorder(ssl=bool(ssl))
+    if ssl:
+        r.cap = 10**6
+    else:
+        exp, per_it, n0 = reference(shape, cycle, sc_pat, lr_pat, clevel,
+                                    nus, maxit)
+        r.cap = 20*len(exp) + 1000
     r.install()
     buf = io.StringIO()
     try:
         with contextlib.redirect_stdout(buf):
-            out = emg3d.solve(
-                model, sf, sslsolver=False, semicoarsening=spec['sc'],
-                linerelaxation=spec['lr'], cycle=spec['cycle'],
-                clevel=spec['clevel'], nu_init=nus[0], nu_pre=nus[1],
-                nu_coarse=nus[2], nu_post=nus[3], maxit=n_iter, tol=1e-30,
-                verb=verb, return_info=True, log=-1)
+            out = emg3d.solve(model, sf, maxit=maxit, tol=1e-30, verb=verb,
+                              return_info=True, log=-1, **args)
     finally:
         r.remove()
-    info = out[1]
+    if use_ef:
+        # "If an initial efield is provided nothing is returned" (but info)
+        if not isinstance(out, dict):
+            raise Violation("return_value_with_efield",
+                            f"solve(efield=...) returned {type(out)}, "
+                            f"expected the info dict only; spec {spec}")
+        info = out
+    else:
+        info = out[1]
+    ncalls = sum(1 for e in r.events if e[0] == 'call')
+    if ssl:
+        # documented: in preconditioner mode each multigrid call runs
+        # max(len(sc pattern), len(lr pattern)) cycles; the number of calls
+        # is the scipy solver's business and is taken from the recording
+        n_iter = mc*ncalls
+        exp, per_it, n0 = reference(shape, cycle, sc_pat, lr_pat, clevel,
+                                    nus, n_iter, calls=mc)
+    else:
+        n_iter = maxit
     if info['it_mg'] != n_iter:
         raise Violation("iteration_count",
-                        f"it_mg={info['it_mg']} for maxit={n_iter}")
+                        f"it_mg={info['it_mg']}, expected {n_iter} (maxit="
+                        f"{maxit}, {ncalls} preconditioner calls of {mc}); "
+                        f"spec {spec}")
     got = [e for e in r.events if not (e[0] == 'smooth' and e[3] == 0)]
     _invariants(spec, got)
     # expand reference smoothing events into kernel calls
     expf = []
     for e in exp:
-        if e[0] == 'smooth':
+        if e[0] == 'call':
+            expf.append(e)
+        elif e[0] == 'smooth':
             if e[4] == 0:
                 continue
             for k in e[3]:
                 expf.append(('smooth', e[2], k, e[4]))
         else:
             expf.append((e[0], e[2], e[3], e[4]))
-    _compare(spec, got, expf, 'skeleton')
+    _compare(spec, _canon(got), _canon(expf),
+             'skeleton_ssl' if ssl else 'skeleton', cycle)
 
-    if verb >= 4:
-        log = info['log']
+    log = info['log']
+    if verb >= 3:
+        eg = _header_checks(spec, log, shape, clevel)
+    if verb >= 4 and n_iter >= 1:
         moves = walk_levels(exp[:n0])
         maxl = max([m[1] for m in moves], default=0)
         fig = _parse_figure(log)
         if fig != figure(moves, maxl):
-            raise Violation(f"qc_figure:cycle={spec['cycle']}",
+            raise Violation(f"qc_figure:cycle={cycle}",
                             f"figure {fig} != expected "
                             f"{figure(moves, maxl)}; spec {spec}")
-        cg, cl = _parse_header(log)
-        lev = [halvings(n) for n in shape]
-        if spec['clevel'] >= 0:
-            lev = [min(v, spec['clevel']) for v in lev]
-        eg = tuple(n//2**v for n, v in zip(shape, lev))
-        if cg != eg or cl != tuple(lev):
-            raise Violation("header_coarsest",
-                            f"header says {cg} / {cl}, expected {eg} / "
-                            f"{tuple(lev)}; spec {spec}")
         if sc_pat == [0]:
             # full coarsening: the header's coarsest grid is the bottom one
             bshape = [e[1] for e in got if e[0] == 'smooth'] + \
@@ -344,24 +498,65 @@ def case_skeleton(spec, rec):
                 raise Violation("bottom_vs_header",
                                 f"coarsest visited grid {smallest}, header "
                                 f"{eg}; spec {spec}")
+        # per-cycle line: number of the fine-grid cycle, lr and sc used in it
+        cyc = _parse_cycle_lines(log)
+        expc = [(i+1, cycle, lr, sc) for i, (_, lr, sc) in enumerate(per_it)]
+        if cyc != expc:
+            k = next((i for i, (a, b) in enumerate(zip(cyc, expc))
+                      if a != b), min(len(cyc), len(expc)))
+            raise Violation("cycle_line_lr_sc",
+                            f"per-cycle line {k}: {cyc[k:k+1]} != expected "
+                            f"{expc[k:k+1]} (lengths {len(cyc)}/{len(expc)})"
+                            f"; spec {spec}")
+    if verb >= 5:
+        # smoothing lines of the log: level, level shape, phase (the `it` and
+        # `cycmax` columns are compared in sub-check `log` only)
+        gl = [g[:3] for g in _parse_gs_lines(log)]
+        el = [(e[1], e[2], e[5]) for e in exp if e[0] == 'smooth']
+        _compare(spec, gl, el, 'skeleton_log', cycle)
 
-    bottoms = sorted({b for b, _, _ in per_it})
-    rec.cls(f"cycle={spec['cycle']}", f"bottom={max(bottoms)}",
+    bottoms = sorted({b for b, _, _ in per_it}) or [0]
+    omit = spec.get('omit', [])
+    rec.cls(f"cycle={cycle}", f"bottom={max(bottoms)}",
             f"sc_len={len(sc_pat)}", f"lr_len={len(lr_pat)}",
             f"clevel={spec['clevel']}", f"verb={verb}")
+    rec.cls(f"ssl={spec.get('ssl', False)}", f"plain={spec.get('plain', False)}",
+            f"omitted={len(omit)}", f"efield={use_ef}", f"freq={freq}",
+            f"model_case={mcase}",
+            "maxit=%s" % ('1-9' if maxit < 10 else '10-19' if maxit < 20
+                          else '20+'),
+            "maxdim=%s" % ('<=40' if max(shape) <= 40 else '>40'),
+            "deep_dirs=%d" % sum(halvings(n) >= 4 for n in shape),
+            "sc_or_lr_False=%s" % (spec['sc'] is False or spec['lr'] is False))
+    if ssl:
+        rec.cls("ncalls=%s" % (ncalls if ncalls < 5 else '5-9' if ncalls < 10
+                               else '10+'),
+                f"ssl_effective={ssl}", f"ssl_mc={mc}",
+                "ssl_joint_period_wraps=%s" % (
+                    n_iter > np.lcm(len(sc_pat), len(lr_pat)) > 1))
+        for o in omit:
+            rec.cls(f"omit={o}")
+    elif omit:
+        for o in omit:
+            rec.cls(f"omit={o}")
+    if len(bottoms) > 1:
+        rec.cls("bottom_varies_with_sc")
     if max(bottoms) >= 2 or (max(bottoms) >= 1 and (len(sc_pat) > 1 or
                                                     len(lr_pat) > 1)):
-        rec.nt([list(shape), spec['cycle'], spec['sc'], spec['lr'],
-                spec['clevel'], list(nus), n_iter])
+        key = [list(shape), spec['cycle'], spec['sc'], spec['lr'],
+               spec['clevel'], list(spec['nus']), maxit]
+        extra = [spec.get(k) for k in ('ssl', 'plain', 'omit', 'efield',
+                                       'freq', 'case') if spec.get(k)]
+        rec.nt(key + extra if extra else key)
     rec.note({'shape': list(shape), 'events': len(got),
-              'bottom_levels': bottoms})
+              'bottom_levels': bottoms, 'calls': ncalls})
 
 
 # -------------------------------------------------- (c) real log
 LOGLINE = re.compile(r"^\s+(\d+) (\d+) (\d+) \[\s*(\d+),\s*(\d+),\s*(\d+)\]: "
                      r"\S+ (initial error|initial smoothing|pre-smoothing|"
                      r"post-smoothing|coarsest level)\s*$")
-CYCLINE = re.compile(r"after\s+(\d+) ([FVW])-cycles\s+\[.*\]\s+(\d) (\d)\s*$")
+CYCLINE = re.compile(r"after\s+(\d+) ([FVW])-cycles\s+(?:\[.*\]\s+)?(\d) (\d)\s*$")
 
 
 def case_log(spec, rec):
@@ -374,9 +569,12 @@ def case_log(spec, rec):
     sc_pat = pattern(spec['sc'], [1, 2, 3])
     lr_pat = pattern(spec['lr'], [4, 5, 6])
     nus = tuple(spec['nus'])
+    ssl = spec.get('ssl', False)
+    if ssl and nus[0] != 0:
+        raise HarnessError("preconditioner mode needs nu_init=0")
     with contextlib.redirect_stdout(io.StringIO()):
         _, info = emg3d.solve(
-            model, sf, sslsolver=False, semicoarsening=spec['sc'],
+            model, sf, sslsolver=ssl, semicoarsening=spec['sc'],
             linerelaxation=spec['lr'], cycle=spec['cycle'],
             clevel=spec['clevel'], nu_init=nus[0], nu_pre=nus[1],
             nu_coarse=nus[2], nu_post=nus[3], maxit=spec['maxit'],
@@ -385,24 +583,18 @@ def case_log(spec, rec):
     n_it = int(info['it_mg'])
     exp, per_it, n0 = reference(shape, spec['cycle'], sc_pat, lr_pat,
                                spec['clevel'], nus, n_it)
-    got = []
-    cyc = []
-    for ln in log.split('\n'):
-        m = LOGLINE.match(ln)
-        if m:
-            if m.group(7) == 'initial error':
-                continue
-            got.append((int(m.group(2)),
-                        (int(m.group(4)), int(m.group(5)), int(m.group(6))),
-                        m.group(7), int(m.group(1)), int(m.group(3))))
-        m = CYCLINE.search(ln)
-        if m:
-            cyc.append((int(m.group(1)), m.group(2), int(m.group(3)),
-                        int(m.group(4))))
+    got = _parse_gs_lines(log)
+    cyc = _parse_cycle_lines(log)
     # the log prints every executed smoothing phase (incl. nu_coarse=0)
     # (level, shape, phase, it, cycmax)
     expl = [(e[1], e[2], e[5], e[6], e[7]) for e in exp if e[0] == 'smooth']
-    _compare(spec, got, expl, 'log')
+    if ssl:
+        # as preconditioner, a call may end before its last cycle (converged)
+        # and the printed `it` restarts with every call: compare what the
+        # property names (level, level shape, phase) for the it_mg cycles
+        got = [g[:3] for g in got]
+        expl = [e[:3] for e in expl]
+    _compare(spec, got, expl, 'log_ssl' if ssl else 'log')
     expc = [(i+1, spec['cycle'], lr, sc)
             for i, (_, lr, sc) in enumerate(per_it)]
     if cyc != expc:
@@ -417,22 +609,15 @@ def case_log(spec, rec):
         raise Violation(f"qc_figure:cycle={spec['cycle']}",
                         f"figure {fig} != expected {figure(moves, maxl)}; "
                         f"spec {spec}")
-    cg, cl = _parse_header(log)
-    lev = [halvings(n) for n in shape]
-    if spec['clevel'] >= 0:
-        lev = [min(v, spec['clevel']) for v in lev]
-    eg = tuple(n//2**v for n, v in zip(shape, lev))
-    if cg != eg or cl != tuple(lev):
-        raise Violation("header_coarsest",
-                        f"header says {cg} / {cl}, expected {eg} / "
-                        f"{tuple(lev)}; spec {spec}")
+    _header_checks(spec, log, shape, spec['clevel'])
     bottoms = [b for b, _, _ in per_it]
     rec.cls(f"cycle={spec['cycle']}", f"iterations={min(n_it, 5)}",
             f"exit={info['exit_message'][:9]}",
-            f"bottom={max(bottoms) if bottoms else 0}")
+            f"bottom={max(bottoms) if bottoms else 0}", f"ssl={ssl}")
     if n_it >= 1 and max(bottoms) >= 1:
-        rec.nt(['log', list(shape), spec['cycle'], spec['sc'], spec['lr'],
-                spec['clevel'], list(nus)])
+        key = ['log', list(shape), spec['cycle'], spec['sc'], spec['lr'],
+               spec['clevel'], list(nus)]
+        rec.nt(key + [ssl] if ssl else key)
     rec.note({'shape': list(shape), 'it_mg': n_it,
               'log_lines': len(got), 'exit': info['exit_message']})
 
@@ -441,32 +626,49 @@ def case_log(spec, rec):
 SC_VALUES = [0, 1, 2, 3, True, 12, 1213, 3210]
 LR_VALUES = [0, 1, 2, 3, 4, 5, 6, 7, True, 1213, 4567]
 CLEVELS = [-1, 0, 1, 2, 5]
+# "beyond the deepest level" stand-ins for clevel=5 on the small shapes, and
+# the limits used for the deep (n,2,2) lines / plates
+CLEVELS_HIGH = [5, 3, 100, 4, 9, 7, 10]
+CLEVELS_DEEP = [-1, 0, 1, 2, 5, 3, 4, 7, 9, 100]
+ENUM_VERBS = [4, -1, -1, 2, -1, 5, -1, -1, 0, -1, 3, -1, -1, 1]
 
 
-def covering_configs(k):
+def covering_configs(k, clevels=CLEVELS):
     """A pairwise-covering-style subset of (sc, lr, clevel), rotated by k so
     that over many shapes the full product is visited."""
     out = []
     for i, sc in enumerate(SC_VALUES):
         lr = LR_VALUES[(i*3 + k) % len(LR_VALUES)]
-        cl = CLEVELS[(i + k) % len(CLEVELS)]
+        cl = clevels[(i + k) % len(clevels)]
         out.append((sc, lr, cl))
     for i, lr in enumerate(LR_VALUES):
         sc = SC_VALUES[(i*5 + k + 1) % len(SC_VALUES)]
-        cl = CLEVELS[(i*2 + k + 3) % len(CLEVELS)]
+        cl = clevels[(i*2 + k + 3) % len(clevels)]
         out.append((sc, lr, cl))
     return out
 
 
-def enum_specs(shapes, full=False):
+def enum_specs(shapes, full=False, deep=False):
     k = 0
     for shape in shapes:
         k += 1
         if full:
             cfgs = itertools.product(SC_VALUES, LR_VALUES, CLEVELS)
         else:
-            cfgs = covering_configs(k)
+            cfgs = covering_configs(k, CLEVELS_DEEP if deep else CLEVELS)
+        lev = max(halvings(n) for n in shape)
         for j, (sc, lr, cl) in enumerate(cfgs):
+            if deep and (k+j) % 3 == 0:
+                # limit next to the deepest possible level of this shape
+                cl = max(0, lev - 1 + (k+j)//3 % 3)
+            elif cl == 5 and not full:
+                cl = CLEVELS_HIGH[(k+j) % len(CLEVELS_HIGH)]
+            # documented spelling `False` of "no semicoarsening / no line
+            # relaxation"
+            if sc == 0 and (k+j) % 2 == 0 and not full:
+                sc = False
+            if lr == 0 and (k+j) % 2 == 1 and not full:
+                lr = False
             for c, cycle in enumerate('VWF'):
                 npat = max(len(pattern(sc, [1, 2, 3])),
                            len(pattern(lr, [4, 5, 6])))
@@ -474,36 +676,125 @@ def enum_specs(shapes, full=False):
                        'lr': lr, 'clevel': cl,
                        'nus': [(k+j) % 2, 1 + (j % 2), 1, 1 + ((k+c) % 2)],
                        'maxit': 2*npat if npat > 1 else 1 + (j % 2),
-                       'verb': 4 if (k+j+c) % 7 == 0 else -1}
+                       'verb': ENUM_VERBS[(k+j+c) % 7 + 7*((k+j+c)//7 % 2)]}
 
 
-def random_spec(maxn):
-    pat_sc = st.one_of(st.sampled_from(SC_VALUES),
-                       st.lists(st.integers(0, 3), min_size=2, max_size=5
-                                ).map(lambda d: int(''.join(map(str, d)))
-                                      if d[0] != 0 else int(
-                                          '1'+''.join(map(str, d)))))
-    pat_lr = st.one_of(st.sampled_from(LR_VALUES),
-                       st.lists(st.integers(0, 7), min_size=2, max_size=5
-                                ).map(lambda d: int(''.join(map(str, d)))
-                                      if d[0] != 0 else int(
-                                          '7'+''.join(map(str, d)))))
+def ssl_enum_specs(shapes):
+    """Preconditioner mode: small covering enumeration (bicgstab, spelled
+    True / 'bicgstab' / omitted = the default, and cgs)."""
+    k = 0
+    for shape in shapes:
+        for j, (sc, lr, cl) in enumerate(covering_configs(k)):
+            k += 1
+            spec = {'shape': list(shape), 'cycle': 'VWF'[k % 3], 'sc': sc,
+                    'lr': lr, 'clevel': cl,
+                    'nus': [0, (k//2) % 3, 1, 1 + k % 2],
+                    'maxit': 1 + k % 3,
+                    'verb': [-1, 4, -1, 5, -1, 2][k % 6],
+                    'ssl': [True, 'bicgstab', 'cgs', True][k % 4],
+                    'omit': ['sslsolver'] if k % 8 == 3 else []}
+            yield spec
+
+
+PLATE_N = [48, 64, 80, 96, 128, 192, 256]
+ARGNAMES = ['semicoarsening', 'linerelaxation', 'cycle', 'clevel', 'nu_init',
+            'nu_pre', 'nu_coarse', 'nu_post']
+
+
+def _digits(hi, lead):
+    return st.lists(st.integers(0, hi), min_size=2, max_size=5).map(
+        lambda d: int(''.join(map(str, d))) if d[0] != 0 else
+        int(lead + ''.join(map(str, d))))
+
+
+def _finish(spec):
+    """Deterministic clean-up of a drawn spec (keeps cost and documented
+    admissibility)."""
+    spec = dict(spec)
+    omit = list(spec['omit'])
+    ssl = spec['ssl']
+    if ssl is False:
+        # the default of sslsolver is True: it may be left out only together
+        # with plain=True (documented shortcut)
+        if 'sslsolver' in omit and not spec['plain']:
+            omit.remove('sslsolver')
+    else:
+        if ssl is not True and 'sslsolver' in omit:
+            omit.remove('sslsolver')
+        if ssl is True:
+            # plain=True would turn sslsolver=True into False
+            spec['plain'] = False
+        spec['nus'] = [0] + list(spec['nus'][1:])
+        spec['maxit'] = 1 + (spec['maxit'] - 1) % 3
+        if ssl == 'gcrotmk':
+            spec['maxit'] = 1
+    spec['omit'] = sorted(omit)
+    lev = [halvings(n) for n in spec['shape']]
+    cl = -1 if 'clevel' in omit else spec['clevel']
+    deep = max(lev) if cl < 0 else min(max(lev), cl)
+    cyc = 'F' if 'cycle' in omit else spec['cycle']
+    if spec['maxit'] > 9 and (deep > 2 and not (cyc == 'V' and deep <= 4)):
+        spec['maxit'] = 1 + (spec['maxit'] - 1) % 9
+    if deep > 5 and cyc != 'V' and spec['maxit'] > 3:
+        spec['maxit'] = 1 + (spec['maxit'] - 1) % 3
+    return spec
+
+
+def random_spec(maxn, ssl=False):
+    pat_sc = st.one_of(st.sampled_from(SC_VALUES + [False]), _digits(3, '1'))
+    pat_lr = st.one_of(st.sampled_from(LR_VALUES + [False]), _digits(7, '7'))
     n = st.one_of(st.integers(2, maxn),
                   st.sampled_from([2, 4, 8, 16, 32, 12, 24, 20, 40, 6, 10]))
+    cube = st.tuples(n, n, n).map(list)
+    # two deep directions of unequal depth, one shallow
+    plate = st.tuples(st.sampled_from(PLATE_N), st.integers(2, 40),
+                      st.sampled_from([2, 3, 4, 6]),
+                      st.permutations([0, 1, 2])).map(
+        lambda t: [t[:3][i] for i in t[3]])
+    if ssl:
+        shape = cube
+        sslv = st.sampled_from([True, True, 'bicgstab', 'cgs', 'cgs',
+                                'gcrotmk'])
+        omit = st.lists(st.sampled_from(ARGNAMES + ['sslsolver']*4),
+                        unique=True, max_size=3)
+        verb = st.sampled_from([-1, -1, 0, 1, 2, 3, 4, 4, 5])
+    else:
+        shape = st.one_of(cube, cube, cube, cube, plate)
+        sslv = st.just(False)
+        omit = st.one_of(st.just([]), st.lists(
+            st.sampled_from(ARGNAMES + ['sslsolver']), unique=True,
+            max_size=4))
+        verb = st.sampled_from([-1, -1, 0, 1, 2, 3, 4, 4, 5])
     return st.fixed_dictionaries({
-        'shape': st.tuples(n, n, n).map(list),
+        'shape': shape,
         'cycle': st.sampled_from(['V', 'W', 'F']),
         'sc': pat_sc, 'lr': pat_lr,
-        'clevel': st.sampled_from([-1, -1, 0, 1, 2, 3, 5]),
+        'clevel': st.one_of(st.sampled_from([-1, -1, 0, 1, 2, 3, 5]),
+                            st.integers(-1, 10), st.just(100)),
         'nus': st.tuples(st.integers(0, 3), st.integers(0, 3),
                          st.integers(0, 3), st.integers(0, 3)).map(list),
-        'maxit': st.integers(1, 9),
-        'verb': st.sampled_from([-1, 4, 4]),
-    })
+        'maxit': st.one_of(st.integers(1, 9), st.integers(1, 9),
+                           st.integers(10, 40)),
+        'verb': verb,
+        'ssl': sslv,
+        'plain': st.sampled_from([False, False, False, True]),
+        'omit': omit,
+        'efield': st.sampled_from([False, False, True]),
+        'freq': st.sampled_from([1.0, 1.0, -2.0]),
+        'case': st.sampled_from([0, 0, 1, 2, 3]),
+    }).map(_finish)
 
 
 def log_spec():
     n = st.sampled_from([2, 3, 4, 5, 6, 8, 8, 10, 12, 16, 16, 20, 24])
+
+    def fin(spec):
+        if spec['ssl'] is not False:
+            spec = dict(spec, nus=[0] + list(spec['nus'][1:]),
+                        maxit=1 + (spec['maxit'] - 1) % 3)
+            if spec['ssl'] == 'gcrotmk':
+                spec['maxit'] = 1
+        return spec
     return st.fixed_dictionaries({
         'shape': st.tuples(n, n, n).map(list).filter(
             lambda s: np.prod(s) <= 3000),
@@ -516,11 +807,16 @@ def log_spec():
                          st.integers(0, 2), st.integers(0, 3)).map(list),
         'maxit': st.integers(1, 7),
         'seed': gen.SEED,
-    })
+        'ssl': st.sampled_from([False, False, False, True, 'cgs', 'gcrotmk']),
+    }).map(fin)
 
 
 SUBS = {'skeleton_enum': case_skeleton, 'skeleton_random': case_skeleton,
-        'skeleton_lines': case_skeleton, 'log': case_log}
+        'skeleton_lines': case_skeleton, 'skeleton_ssl': case_skeleton,
+        'log': case_log}
+
+PLATES_QUICK = [(64, 32, 2), (128, 48, 3), (96, 2, 20), (2, 80, 24),
+                (6, 256, 40), (16, 4, 192), (48, 36, 4), (3, 24, 128)]
 
 
 def run(ctx):
@@ -533,10 +829,17 @@ def run(ctx):
         lines = [s for n in [16, 24, 32, 40, 48, 64, 96, 128, 160, 256, 384,
                              512, 640, 768, 1024, 1022, 1023]
                  for s in ((n, 2, 2), (2, n, 2), (2, 2, n))]
-        ctx.enumerate('skeleton_lines', list(enum_specs(lines)),
+        ctx.enumerate('skeleton_lines',
+                      list(enum_specs(lines + PLATES_QUICK, deep=True)),
                       case_skeleton, exhaustive=False)
         ctx.explore('skeleton_random', random_spec(40), case_skeleton,
                     ctx.n(1500, 1500))
+        ssl_shapes = [(2, 2, 2), (4, 4, 4), (8, 6, 4), (8, 8, 8), (5, 12, 16),
+                      (16, 2, 8), (3, 20, 6), (32, 4, 12)]
+        ctx.enumerate('skeleton_ssl', list(ssl_enum_specs(ssl_shapes)),
+                      case_skeleton, exhaustive=False)
+        ctx.explore('skeleton_ssl', random_spec(24, ssl=True), case_skeleton,
+                    ctx.n(250, 1500))
         ctx.explore('log', log_spec(), case_log, ctx.n(60, 200))
     else:
         shapes = list(itertools.product(range(2, 41), repeat=3))
@@ -544,14 +847,25 @@ def run(ctx):
                       exhaustive=True)
         lines = [s for n in range(2, 1025)
                  for s in ((n, 2, 2), (2, n, 2), (2, 2, n))]
-        ctx.enumerate('skeleton_lines', enum_specs(lines), case_skeleton,
-                      exhaustive=True)
+        ctx.enumerate('skeleton_lines', enum_specs(lines, deep=True),
+                      case_skeleton, exhaustive=True)
+        plates = [p for n in PLATE_N for m in range(2, 41, 3)
+                  for kk in (2, 3, 4, 6)
+                  for p in ((n, m, kk), (kk, n, m), (m, kk, n))]
+        ctx.enumerate('skeleton_lines', enum_specs(plates, deep=True),
+                      case_skeleton, exhaustive=False)
         # complete (sc, lr, clevel) product on all shapes up to 6
         small = list(itertools.product(range(2, 7), repeat=3))
         ctx.enumerate('skeleton_enum', enum_specs(small, full=True),
                       case_skeleton, exhaustive=True)
         ctx.explore('skeleton_random', random_spec(40), case_skeleton,
                     ctx.n(1500, 6000))
+        ssl_shapes = list(itertools.product([2, 3, 4, 6, 8, 12, 16],
+                                            repeat=3))
+        ctx.enumerate('skeleton_ssl', ssl_enum_specs(ssl_shapes),
+                      case_skeleton, exhaustive=False)
+        ctx.explore('skeleton_ssl', random_spec(32, ssl=True), case_skeleton,
+                    ctx.n(250, 1500))
         ctx.explore('log', log_spec(), case_log, ctx.n(60, 200))
     ctx.notes['enumerated_shapes'] = (
         '{2..9}^3' if ctx.quick else '{2..40}^3 + lines n<=1024')
